@@ -475,6 +475,38 @@ def c09h(ctx):
                     ctx.fail(o, Site(b, tb, 0), "InMemoryKeyOfSetMap::insert creates a new set for a key but can return without publishing it in the map: the element is lost")
 
 
+def c09i(ctx):
+    """The merging reader of a key-of-set entry drains several sources in turn (the half-built set of a spilled load, the
+    rest of the database scan, the staged additions) and drops the members that have a staged Remove.  Dropping one member
+    must not end the drain of its source: the rejecting path has to come back to the same source's `next` - a filter
+    applied to a single `next()` hands the turn to the following sources, and when those are exhausted the iterator ends
+    with members of the first source still unread (D10)."""
+    prog = ctx.prog
+    o = ctx.ob("C09.i", "merge/filtered-source-is-drained-in-a-loop", "K2+K6", "in MergeIterator::next every source whose items are filtered against the staged removals is re-polled after a rejected item")
+    bs = [b for b in prog.find(r"MergeIterator as Iterator>::next$")]
+    if len(bs) != 1:
+        ctx.fail(o, "(program)", "anchor missing: <MergeIterator as Iterator>::next (found %d)" % len(bs))
+        return
+    b = ctx.touch(bs[0])
+    nexts = b.calls_to(r"iterator::Iterator::next$")
+    filters = b.calls_to(r"HashSet::<T, S, A>::(contains|remove)$")
+    o.sites = len(filters)
+    if len(filters) < 3 or len(nexts) < 3:
+        ctx.fail(o, Site(b, 0, 0), "expected >= 3 filtered sources (spilled half, spilled rest, streaming scan), found %d filters over %d next() calls" % (len(filters), len(nexts)))
+        return
+    for f in filters:
+        dom = [n for n in nexts if b.site_dominates(n, f)]
+        if not dom:
+            ctx.fail(o, f, "the staged-removal filter is applied to something that does not come from a source's next()")
+            continue
+        # nearest dominating poll
+        n = [x for x in dom if all(y == x or b.site_dominates(y, x) for y in dom)][0]
+        if n.bb not in b.reachable(b.successors(f.bb)):
+            ctx.fail(o, n, "MergeIterator::next polls this source once and filters the item against the staged removals without coming back to it: a rejected member hands the "
+                     "turn to the later sources, and once those are exhausted the iterator ends although members of this source remain - a read of a spilled set with "
+                     "staged removes loses committed members")
+
+
 def c09g_staging(ctx):
     prog = ctx.prog
     # ---- a staging snapshot first applies the deferred messages
@@ -551,6 +583,7 @@ def run(ctx):
     ctx.run_clause("C09.g", c09g_staging)
     ctx.run_clause("C09.g", c09g_order)
     ctx.run_clause("C09.h", c09h)
+    ctx.run_clause("C09.i", c09i)
     ctx.run_clause("C09.a", c09a)
     ctx.run_clause("C09.b", c09b)
     ctx.run_clause("C09.c", c09c)
